@@ -17,6 +17,16 @@ paired (either order) with each of the 10 maps with <= 1 key, all pairs of the
 16, plus length 3 over 6 maps (thorough).  A second family interleaves two
 different statements sharing the same Table objects.
 
+Where the map is supplied is a further dimension ("level" shards): engine
+level (``engine.execution_options``), connection level, per-execute
+(``conn.execute(stmt, execution_options=...)``), statement / DDL-element level
+(``stmt.execution_options``), and two levels that disagree (per-execute over
+connection / statement / engine, connection over engine - the order
+engine/base.py merges them in; statement versus connection or engine is
+documented nowhere, either winner is accepted), plus a mode that changes the
+level at every step; Table.create / Table.drop / create_all take engine or
+connection level.  Same histories, same oracle.
+
 Oracle (the property, literally): the SQL handed to the cursor equals the SQL
 of the same construct built over tables that *carry* the translated schema
 names, compiled without a map on an engine without cache; rows returned and
@@ -37,6 +47,13 @@ Mutations caught (each seeded alone in a scratch copy, VIOLATION obtained):
   M7 engine/base.py Connection.schema_for_object returns the untranslated name (create_all checkfirst looks at the wrong schema)
   M8 sql/compiler.py _render_schema_translates: "_none" entry taken from another key
   M9 engine/default.py _init_compiled renders with the map the cached form was compiled with instead of the current one
+  supply level (map given per execute / on the statement / on the engine):
+  V1 engine/base.py _execute_ddl merges only the connection's options (ignores DDL-element and per-execute options)
+  V2 engine/base.py _execute_clauseelement reads schema_translate_map from the connection's options only
+  V3 engine/base.py _execute_ddl: per-execute options merged *before* the connection's (wrong precedence)
+  V4 engine/base.py _execute_clauseelement: statement-level options dropped from the merge
+  V5 engine/base.py _execute_ddl reads the map from the DDL element's own options only
+  V6 engine/base.py Connection.__init__ does not inherit the engine's execution options (Table.create / create_all on an option engine)
   (not caught, equivalent for tables without schema-qualified defaults: insertmanyvalues batches not re-translated)
 """
 from __future__ import annotations
@@ -58,7 +75,7 @@ META = dict(
     "cache; differential against the same construct over tables carrying the translated schemas, uncached (cursor SQL, rows, "
     "contents and catalog of every attached schema)",
     design_ref="DESIGN.md §5 C16",
-    level_text="13 statement / DDL shapes x 9 schema placements x every sequence of <=2 maps (16 maps quick; thorough: all 64 functions "
+    level_text="15 statement / DDL shapes x 9 schema placements x every sequence of <=2 maps (16 maps quick; thorough: all 64 functions "
     "singly and paired in either order with each of the 10 maps with <= 1 key, all pairs of the 16, length 3 over 6 maps) share one compiled cache per history; each execution is compared with the reference "
     "construct whose tables carry the translated names, executed uncached on a twin database with three schemas. "
     "Exhaustive for the bound: a map frozen into the cache, a None-key slip or DDL ignoring the map within these shapes is found.",
@@ -70,8 +87,10 @@ META = dict(
     "tables and the compiled form came from the cache (history position >= 2)",
     assumptions=["single connection", "maps are fresh dict objects per execution", "SQLite 3.40"],
     bounds=dict(
-        quick="13 shapes x 9 placements x all sequences of <=2 maps out of 16; 2-statement interleavings over 6 maps",
-        thorough="13 shapes x 9 placements x each of the 64 maps singly and paired (either order) with each of the 10 maps with <=1 key; all pairs of the 16; all sequences of 3 maps out of 6; interleavings over 10 maps",
+        quick="15 shapes x 9 placements x all sequences of <=2 maps out of 16 (map at connection level); 2-statement interleavings over 6 maps; "
+        "supply level: 8 shapes x 3 placements x 8-9 level modes x all sequences of <=2 maps out of 12",
+        thorough="13 shapes x 9 placements x each of the 64 maps singly and paired (either order) with each of the 10 maps with <=1 key; all pairs of the 16; all sequences of 3 maps out of 6; interleavings over 10 maps; "
+        "supply level: all 15 shapes x 9 placements x all level modes x all sequences of <=2 maps out of 12",
     ),
 )
 
@@ -143,20 +162,54 @@ class Db:
                         out.append((db, tname, raw.execute("SELECT * FROM %s.%s ORDER BY 1" % (db, tname)).fetchall()))
         return out
 
-    def run(self, shape, tabs, m):
-        """execute one statement; -> (outcome, log)"""
+    def run(self, shape, tabs, m, mode="conn", decoy=None):
+        """execute one statement with the map supplied at the level(s) ``mode`` names; -> (outcome, log)"""
         md, a, b, c, d = tabs
         del self.log[:]
-        opts = {} if m is None else dict(schema_translate_map=dict(m))
+        M = None if m is None else dict(schema_translate_map=dict(m))
+        D = None if decoy is None else dict(schema_translate_map=dict(decoy))
+        eng_opts = conn_opts = stmt_opts = exec_opts = None
+        if mode == "conn":
+            conn_opts = M
+        elif mode == "engine":
+            eng_opts = M
+        elif mode == "execute":
+            exec_opts = M
+        elif mode == "stmt":
+            stmt_opts = M
+        elif mode == "execute_over_conn":
+            conn_opts, exec_opts = D, M
+        elif mode == "execute_over_stmt":
+            stmt_opts, exec_opts = D, M
+        elif mode == "execute_over_engine":
+            eng_opts, exec_opts = D, M
+        elif mode == "conn_over_engine":
+            eng_opts, conn_opts = D, M
+        elif mode == "stmt_vs_conn":
+            stmt_opts, conn_opts = M, D
+        else:
+            raise AssertionError(mode)
         try:
-            with self.engine.connect() as conn:
-                conn = conn.execution_options(**opts) if opts else conn
-                if shape == "create_all":
-                    md.create_all(conn, tables=[c, md.tables[(c.schema + ".e") if c.schema else "e"]], checkfirst=True)
+            eng = self.engine.execution_options(**eng_opts) if eng_opts else self.engine
+            with eng.connect() as conn:
+                if conn_opts:
+                    conn = conn.execution_options(**conn_opts)
+                if F.SCHEMA_SHAPES[shape]["kind"] == "meta":
+                    assert stmt_opts is None and exec_opts is None
+                    if shape == "create_all":
+                        md.create_all(conn, tables=[c, md.tables[(c.schema + ".e") if c.schema else "e"]], checkfirst=True)
+                    elif shape == "table_create":
+                        md.tables[(c.schema + ".e") if c.schema else "e"].create(conn, checkfirst=True)
+                        c.create(conn, checkfirst=False)
+                    else:
+                        d.drop(conn, checkfirst=True)
                     rows = None
                 else:
                     stmt, params = F.SCHEMA_SHAPES[shape]["fn"](a, b, c, d)
-                    res = conn.execute(stmt, params) if params else conn.execute(stmt)
+                    if stmt_opts:
+                        stmt = stmt.execution_options(**stmt_opts)
+                    kw = dict(execution_options=exec_opts) if exec_opts else {}
+                    res = conn.execute(stmt, params, **kw) if params else conn.execute(stmt, **kw)
                     rows = sorted(tuple(r) for r in res) if res.returns_rows else None
                 conn.commit()
             return ("ok", rows), list(self.log)
@@ -170,18 +223,44 @@ class Db:
             raise
 
 
+# where the map is supplied.  Precedence encoded (engine/base.py: statement options .merge_with(connection options,
+# per-execute options); Engine.execution_options -> Connection inherits, Connection.execution_options updates):
+# per-execute wins over everything, connection over engine.  Statement versus connection (an engine-level map is
+# inherited by the connection, so this includes statement versus engine) is not documented anywhere: either winner is
+# accepted there (mode stmt_vs_conn, SELECT only).
+MODES_STMT = ("engine", "execute", "stmt", "execute_over_conn", "execute_over_stmt", "execute_over_engine", "conn_over_engine")
+MODES_META = ("engine", "conn_over_engine")
+DECOYS = ({None: "s2", "s1": "s2", "s2": "s1"}, {None: "s1", "s1": None, "s2": None})
+
+
+def decoy_for(m, schemas):
+    """a map for the losing level that would send at least one of the statement's schemas elsewhere"""
+    for d in DECOYS:
+        if any(ref_schema(s, d) != ref_schema(s, m) for s in schemas):
+            return d
+    return None
+
+
+def modes_for(shape):
+    kind = F.SCHEMA_SHAPES[shape]["kind"]
+    if kind == "meta":
+        return MODES_META
+    return MODES_STMT + (("stmt_vs_conn",) if kind == "select" else ())
+
+
 def touched(shape, sx, sy):
     """schemas of the tables the shape mentions"""
-    if shape in ("select", "insert", "insert_many", "create_table", "create_index", "create_all"):
+    if shape in ("select", "insert", "insert_many", "create_table", "create_index", "create_all", "table_create"):
         return (sx,)
-    if shape == "drop_table":
+    if shape in ("drop_table", "table_drop"):
         return (sy,)
     return (sx, sy)
 
 
-def run_history(shape, sx, sy, maps, dbs, rec=None, second=None):
+def run_history(shape, sx, sy, maps, dbs, rec=None, second=None, mode="conn"):
     """maps: sequence of dicts.  second: optional (shape2) executed alternately
     (odd positions) to interleave two statements over the same tables.
+    mode: where the map is supplied (see MODES_*); "rotate" uses a different level at every step.
     -> list of (kind, detail, step)"""
     impl, ref = dbs
     impl.reset()
@@ -194,7 +273,16 @@ def run_history(shape, sx, sy, maps, dbs, rec=None, second=None):
         sh = shape if (second is None or i % 2 == 0) else second
         kind = F.SCHEMA_SHAPES[sh]["kind"]
         rtabs = _tables(ref_schema(sx, m), ref_schema(sy, m))
-        iout, ilog = impl.run(sh, itabs, m)
+        md_ = mode
+        if mode == "rotate":
+            ms = ("conn",) + modes_for(sh)[:3] if kind != "meta" else ("conn", "engine")
+            md_ = ms[i % len(ms)]
+        decoy = None
+        if "_over_" in md_ or "_vs_" in md_:
+            decoy = decoy_for(m, touched(sh, sx, sy))
+            if decoy is None:
+                md_ = md_.split("_")[0]  # no map can disagree here: supply at the winning level only
+        iout, ilog = impl.run(sh, itabs, m, md_, decoy)
         may_refuse = False
         if m and kind in ("select", "dml"):
             if sh in flag:
@@ -219,10 +307,18 @@ def run_history(shape, sx, sy, maps, dbs, rec=None, second=None):
         if rec is not None:
             rec.transition()
             rec.trace()
-            rec.state((sh, sx, sy, flag.get(sh), F.map_key(m) if m is not None else "nomap"))
+            rec.state((sh, sx, sy, flag.get(sh), md_, F.map_key(m) if m is not None else "nomap"))
             rec.outcome((sh, repr(rout)[:200]))
+        if md_ == "stmt_vs_conn" and (ilog != rlog or iout != rout):
+            # undocumented precedence: the connection's map may win instead
+            r2out, r2log = ref.run(sh, _tables(ref_schema(sx, decoy), ref_schema(sy, decoy)), None)
+            if rec is not None:
+                rec.count("statement_vs_connection_level_undocumented")
+            if (ilog, iout) == (r2log, r2out):
+                continue
         if ilog != rlog:
-            probs.append(("sql", "step %d map %s: cursor received %r; the construct over tables carrying the translated schemas sends %r" % (i, F.map_key(m), ilog, rlog), i))
+            probs.append(("sql", "step %d map %s supplied at %s%s: cursor received %r; the construct over tables carrying the translated schemas sends %r" % (
+                i, F.map_key(m), md_, (" (other level: %s)" % F.map_key(decoy)) if decoy else "", ilog, rlog), i))
             break
         if iout != rout:
             probs.append(("rows", "step %d map %s: %r vs reference %r" % (i, F.map_key(m), iout, rout), i))
@@ -263,9 +359,10 @@ def changes(m, schemas):
     return any(ref_schema(s, m) != s for s in schemas)
 
 
-def signature(kind, shape, sx, sy, maps, step):
+def signature(kind, shape, sx, sy, maps, step, mode="conn"):
     prev = "first execution" if step == 0 else "after %s" % ", ".join(F.map_key(m) for m in maps[:step])
-    return "C16 %s shape=%s a@%s b@%s map=%s %s" % (kind, shape, sx, sy, F.map_key(maps[step]), prev)
+    lvl = "" if mode == "conn" else " [map supplied at: %s]" % mode
+    return "C16 %s shape=%s a@%s b@%s map=%s %s%s" % (kind, shape, sx, sy, F.map_key(maps[step]), prev, lvl)
 
 
 def shards(tier, seed):
@@ -275,7 +372,23 @@ def shards(tier, seed):
             out.append(["single", shape, sx, sy])
     for sx, sy in ((None, "s1"), ("s1", "s2"), ("s2", None)):
         out.append(["inter", sx, sy])
+    # where the map is supplied (engine / per-execute / statement level and disagreeing levels)
+    lv_shapes = LEVEL_QUICK_SHAPES if tier == "quick" else tuple(F.SCHEMA_SHAPES)
+    lv_places = ((None, "s1"), ("s1", "s2"), ("s2", None)) if tier == "quick" else placements(tier)
+    for shape in lv_shapes:
+        for sx, sy in lv_places:
+            out.append(["level", shape, sx, sy])
     return out
+
+
+LEVEL_QUICK_SHAPES = ("select", "update", "insert_many", "create_table", "create_index", "drop_table", "create_all", "table_create")
+
+
+def level_histories(tier):
+    q = F.quick_maps()
+    ms = q[:12]  # the 10 maps with <= 1 key, the swap and {None: s1, s1: None}
+    for n in (1, 2):
+        yield from itertools.product(ms, repeat=n)
 
 
 INTER_SHAPES = ("select", "join", "exists_cte", "insert", "update", "delete", "create_index")
@@ -295,6 +408,22 @@ def run_shard(shard, tier, rec):
                     rec.sample(dict(shape=shape, a_schema=sx, b_schema=sy, maps=[F.map_key(m) for m in maps]))
                 for kind, detail, step in probs:
                     rec.violation(signature(kind, shape, sx, sy, maps, step), detail, dict(kind="single", shape=shape, sx=sx, sy=sy, maps=[list(map(list, m.items())) for m in maps[: step + 1]]), kind=(kind, shape))
+        elif shard[0] == "level":
+            _, shape, sx, sy = shard
+            tsch = touched(shape, sx, sy)
+            for mode in modes_for(shape) + ("rotate",):
+                for maps in level_histories(tier):
+                    probs = run_history(shape, sx, sy, maps, dbs, rec, mode=mode)
+                    nt = changes(maps[-1], tsch) and (len(maps) == 1 or maps[-1] != maps[-2])
+                    rec.case(("level", mode, shape, sx, sy, tuple(F.map_key(m) for m in maps)), nontrivial=nt)
+                    if nt and len(maps) == 2 and mode in ("execute_over_conn", "stmt") and len(maps[1]) == 2 and not probs:
+                        rec.sample(dict(shape=shape, a_schema=sx, b_schema=sy, map_supplied_at=mode, maps=[F.map_key(m) for m in maps]))
+                    for kind, detail, step in probs:
+                        rec.violation(
+                            signature(kind, shape, sx, sy, maps, step, mode), detail,
+                            dict(kind="single", shape=shape, sx=sx, sy=sy, mode=mode, maps=[list(map(list, m.items())) for m in maps[: step + 1]]),
+                            kind=(kind, shape, mode),
+                        )
         else:
             _, sx, sy = shard
             ms = F.quick_maps()[:6] if tier == "quick" else F.quick_maps()[:10]
@@ -321,8 +450,9 @@ def replay(case):
     out = []
     try:
         if case["kind"] == "single":
-            for kind, detail, step in run_history(case["shape"], case["sx"], case["sy"], maps, dbs):
-                out.append((signature(kind, case["shape"], case["sx"], case["sy"], maps, step), detail))
+            mode = case.get("mode", "conn")
+            for kind, detail, step in run_history(case["shape"], case["sx"], case["sy"], maps, dbs, mode=mode):
+                out.append((signature(kind, case["shape"], case["sx"], case["sy"], maps, step, mode), detail))
         else:
             for kind, detail, step in run_history(case["s1"], case["sx"], case["sy"], maps, dbs, second=case["s2"]):
                 out.append(("C16 %s interleaved %s/%s a@%s b@%s maps=%s step %d" % (kind, case["s1"], case["s2"], case["sx"], case["sy"], [F.map_key(m) for m in maps[: step + 1]], step), detail))
